@@ -87,6 +87,11 @@ def main():
             pdoc(e["t"]), [pdoc(v) for v in e["views"]], e["gi"], e["gd"], e["gb"], e["nt"], e["size"], e["tsize"], e["eq"]), timeout=1200)
     if os.path.exists(pp):
         os.remove(pp)
+    # operations whose source lives inside the value they change; values built over dirty memory; kind changes by tag (OracleAlias)
+    pa = os.path.join(c.out, "alias.ndjson")
+    rc, out, err = c.run([asan, "alias", pa], timeout=600)
+    if c.harness_ok("value-alias", rc, out, err):
+        c.oracle("OracleAlias", pa, "OracleAlias", lambda e: "value alias kind=%s i=%s dst=%s src=%s after=%s" % (e["kind"], e["i"], pdoc(e["dst"]), pdoc(e["src"]), pdoc(e["after"])), timeout=600)
     c.finish(rule="spec->code: every (state, action-label) pair of the QValue graph (2 roots, 4 paths incl. a two-step path, 4 literals, "
                   "weight <= %d, depth <= 2) on two real Value<char> roots, overloads rotated; code->spec: random histories (paths <= 3 "
                   "steps over 4 keys incl. the empty key and 3 indices, literals of every kind, copy/move/merge/append between roots, reads "
